@@ -46,12 +46,16 @@ func genC19(coop bool) func(t *rapid.T) c19Case {
 			c.Stack.Inject = coop
 		}
 		n := rapid.IntRange(c.Stack.Limit+1, c.Stack.Limit+c.Stack.Backlog).Draw(t, "n")
+		cancels := []int{-1}
+		if rapid.IntRange(0, 3).Draw(t, "withCancels") == 0 {
+			cancels = []int{-1, -1, 0, 0, 1, 3}
+		}
 		one := rapid.Custom(func(t *rapid.T) c19Caller {
 			return c19Caller{
 				AtMs:     rapid.SampledFrom([]int{0, 0, 0, 1, 2, 5, 7, 10, 20}).Draw(t, "at"),
 				HoldMs:   rapid.SampledFrom([]int{1, 2, 5, 5, 7, 10, 30}).Draw(t, "hold"),
 				Out:      rapid.IntRange(0, 2).Draw(t, "out"),
-				CancelMs: rapid.SampledFrom([]int{-1, -1, -1, -1, -1, -1, 0, 0, 1, 3}).Draw(t, "cancel"),
+				CancelMs: rapid.SampledFrom(cancels).Draw(t, "cancel"),
 			}
 		})
 		c.Callers = rapid.SliceOfN(one, n, n).Draw(t, "callers")
@@ -312,7 +316,7 @@ func TestC19_pools(t *testing.T) {
 func TestC19_sched_Coop(t *testing.T) {
 	kit.RequireMode(t, "coop")
 	kit.Check(t, kit.Prop[c19Case]{
-		ID: "C19", Quick: 2000, Thor: 200_000,
+		ID: "C19", Quick: 5000, Thor: 300_000,
 		Rule: "as TestC19_pools under generated cooperative schedules",
 		Gen:  genC19(true), Run: runC19, Timeout: 30 * time.Second,
 	})
@@ -331,4 +335,53 @@ func c19WaitingAt(snap []vtCaller, i int) int {
 		}
 	}
 	return n
+}
+
+// Exhaustive small schedule space for pools: a full generic pool (every ordering), releasing holders and
+// 1-2 waiters started at one virtual instant; all spawn orders x yields in {0,1,3}^k at the schedule
+// points (incl. the check-then-increment window of the simple strategy). Never more tokens than the
+// limit, no waiter left asleep with capacity free.
+func TestC19_enum_Coop(t *testing.T) {
+	kit.RequireMode(t, "coop")
+	if kit.Replay != "" {
+		kit.Check(t, kit.Prop[c10Case]{ID: "C19", Run: runC10})
+		return
+	}
+	d := kit.NewDirect[c10Case](t, "C19", "exhaustive: generic pool x {random, fifo, lifo} x {simple, precise} x 4 actor sets x all spawn orders x yields in {0,1,3}^k (k=6, thorough 8); held tokens <= limit and no waiter asleep with capacity free at quiescence; non-trivial = a completion finished between a waiter's failed attempt and its going to sleep")
+	k := 6
+	if kit.Thorough() {
+		k = 8
+	}
+	vals := []uint8{0, 1, 3}
+	total := 1
+	for i := 0; i < k; i++ {
+		total *= len(vals)
+	}
+	sets := []struct{ limit, h, w int }{{1, 1, 1}, {1, 1, 2}, {2, 2, 1}, {2, 1, 2}}
+	for _, ord := range []string{"random", "fifo", "lifo"} {
+		for _, strat := range []string{"simple", "precise"} {
+			for _, s := range sets {
+				for _, order := range permutations(s.h + s.w) {
+					for code := kit.Shard; code < total; code += kit.Shards {
+						ys := make(yieldList, k)
+						x := code
+						for i := range ys {
+							ys[i] = vals[x%len(vals)]
+							x /= len(vals)
+						}
+						c := c10Case{Stack: StackCfg{Kind: "pool", Ordering: ord, Strategy: strat, Limit: s.limit, Backlog: 4, TimeoutMs: 50, Inject: true}, Waiters: s.w, Order: order, Yields: ys}
+						for i := 0; i < s.h; i++ {
+							c.Outcomes = append(c.Outcomes, (code+i)%3)
+						}
+						stop := kit.Watch("C19", t.Name(), c)
+						o := runC10(t, c)
+						stop()
+						if !d.Account(c, o) {
+							return
+						}
+					}
+				}
+			}
+		}
+	}
 }
